@@ -33,7 +33,9 @@ META = {
                "whole LUBA frames with payload 2/7/13/20/23 (thorough: every length) delivered in two reads "
                "split at a solver-chosen position and one byte per read",
                "'frame observed' messages carrying any 16- / 24-bit frame through the receiver with the real "
-               "decoder behind it (all other cases use a recording decode stub)"],
+               "decoder behind it (all other cases use a recording decode stub)",
+               "two live receivers of a kind: a message to one split at a solver-chosen position around a "
+               "whole message to the other"],
     "stubs": ["isinstance/int/bytes shims", "EnumProxy for LubaCmd / SCIRS232Code / ErrorType",
               "command.Command.from_frame replaced by a recording stub inside dali.driver.serial"],
     "outside": ["streams containing a checksum-valid frame whose payload is malformed for its type (set aside "
